@@ -18,7 +18,8 @@ Record env := mkEnv { e_dbis : dbis; e_last : N }.
 Record sdbi := mkSDbi { sd_name : bytes; sd_flags : N; sd_transform : bytes; sd_entries : list kv }.
 Record snapshot := mkSnap { sn_fmt : N; sn_compat : N; sn_dbis : list sdbi }.
 
-Record icfg := mkICfg { i_native : bool; i_duphack : bool; i_padding : bool; i_receive_only : bool }.
+Record icfg := mkICfg { i_native : bool; i_duphack : bool; i_padding : bool; i_receive_only : bool;
+                        i_cancelled : bool  (* the context is already cancelled when the transaction starts *) }.
 
 Definition sync_prefix : bytes := [95;115;121;110;99].                                  (* "_sync" *)
 Definition shadow_prefix : bytes := [95;115;121;110;99;95;115;104;97;100;111;119;95].  (* "_sync_shadow_" *)
@@ -78,6 +79,13 @@ Fixpoint m2s_loop (c : icfg) (now T cutoff : N) (names : list bytes) (st : tstat
                                     end in
               let r := if isdup then main_to_shadow_dup now T cutoff (d_data m) (d_data sh)
                        else main_to_shadow (d_flags sh) now T cutoff (d_data m) (d_data sh) in
+              (* utils.IsCanceled(ctx) is tested after the (possible) dupsort encoding, before the target DBI is opened *)
+              let r := if i_cancelled c
+                       then match (if isdup then hack_encode (read_raw (d_data m)) else Ok []) with
+                            | Ok _ => Err ECancelled
+                            | Err x => Err x | Panic => Panic | OutOfFuel => OutOfFuel
+                            end
+                       else r in
               match r with
               | Ok sh' =>
                   m2s_loop c now T cutoff names'
@@ -108,6 +116,16 @@ Fixpoint s2m_loop (c : icfg) (names : list bytes) (st : tstate) : res tstate :=
               | Some sh =>
                   let r := if isdup then shadow_to_main_dup (d_data m) (d_data sh)
                            else shadow_to_main (d_flags m) (d_data m) (d_data sh) in
+                  (* utils.IsCanceled(ctx) is tested after the shadow DBI was read (and decoded), before the strategy runs *)
+                  let r := if i_cancelled c
+                           then match read_hdr (d_data sh) with
+                                | Ok l => match (if isdup then hack_decode l else Ok []) with
+                                          | Ok _ => Err ECancelled
+                                          | Err x => Err x | Panic => Panic | OutOfFuel => OutOfFuel
+                                          end
+                                | Err x => Err x | Panic => Panic | OutOfFuel => OutOfFuel
+                                end
+                           else r in
                   match r with
                   | Ok m' =>
                       s2m_loop c names'
@@ -135,48 +153,56 @@ Definition validate_transform (fmt : N) (native : bool) (d : sdbi) : res unit :=
     else Ok tt
   else Ok tt.
 
-(* Go: the per-DBI loop of LoadOnce *)
-Fixpoint load_dbis (c : icfg) (fmt compat T cutoff : N) (ds : list sdbi) (st : tstate) : res tstate :=
-  match ds with
-  | [] => Ok st
-  | d :: ds' =>
-      let name := sd_name d in
-      if has_prefix sync_prefix name then load_dbis c fmt compat T cutoff ds' st
-      else
-        match validate_transform fmt (i_native c) d with
-        | Ok _ =>
-            (* non-native: make sure the application DBI exists *)
-            let r1 : res tstate :=
-              if i_native c then Ok st
-              else match find_dbi (fst st) name with
-                   | Some _ => Ok st
-                   | None => if fmt <? 3 then Err ERefused
-                             else Ok (set_dbi (fst st) name (mkDbi (sd_flags d) []), true)
-                   end in
-            match r1 with
-            | Ok st1 =>
-                let target := if i_native c then name else shadow_prefix ++ name in
-                let tflags := if i_native c then sd_flags d else N.land (sd_flags d) IntegerKeyFlag in
-                let '(t, created) := match find_dbi (fst st1) target with
-                                     | Some t => (t, false)
-                                     | None => (mkDbi tflags [], true)
-                                     end in
-                match new_native_iterator fmt compat T with
-                | Ok _ =>
-                    let mc := mkCfg fmt 0 T (i_padding c) cutoff in
-                    match update (dbi_cmp (d_flags t)) kv k_key (fun e old => native_merge mc old e) (d_data t) (sd_entries d) with
-                    | Ok data' =>
-                        load_dbis c fmt compat T cutoff ds'
-                          (set_dbi (fst st1) target (mkDbi (d_flags t) data'),
-                           snd st1 || created || negb (db_eqb data' (d_data t)))
-                    | Err x => Err x | Panic => Panic | OutOfFuel => OutOfFuel
-                    end
+(* Go: the body of the per-DBI loop of LoadOnce, for one snapshot DBI *)
+Definition load_one (c : icfg) (fmt compat T cutoff : N) (d : sdbi) (st : tstate) : res tstate :=
+  let name := sd_name d in
+  if has_prefix sync_prefix name then Ok st      (* private DBI in a snapshot: ignored *)
+  else
+    match validate_transform fmt (i_native c) d with
+    | Ok _ =>
+        (* non-native: make sure the application DBI exists *)
+        let r1 : res tstate :=
+          if i_native c then Ok st
+          else match find_dbi (fst st) name with
+               | Some _ => Ok st
+               | None => if fmt <? 3 then Err ERefused
+                         else Ok (set_dbi (fst st) name (mkDbi (sd_flags d) []), true)
+               end in
+        match r1 with
+        | Ok st1 =>
+            let target := if i_native c then name else shadow_prefix ++ name in
+            let tflags := if i_native c then sd_flags d else N.land (sd_flags d) IntegerKeyFlag in
+            let '(t, created) := match find_dbi (fst st1) target with
+                                 | Some t => (t, false)
+                                 | None => (mkDbi tflags [], true)
+                                 end in
+            match new_native_iterator fmt compat T with
+            | Ok _ =>
+                let mc := mkCfg fmt 0 T (i_padding c) cutoff in
+                match update (dbi_cmp (d_flags t)) kv k_key (fun e old => native_merge mc old e) (d_data t) (sd_entries d) with
+                | Ok data' =>
+                    if i_cancelled c then Err ECancelled    (* utils.IsCanceled(ctx) after each merged DBI *)
+                    else
+                    Ok (set_dbi (fst st1) target (mkDbi (d_flags t) data'),
+                        snd st1 || created || negb (db_eqb data' (d_data t)))
                 | Err x => Err x | Panic => Panic | OutOfFuel => OutOfFuel
                 end
             | Err x => Err x | Panic => Panic | OutOfFuel => OutOfFuel
             end
         | Err x => Err x | Panic => Panic | OutOfFuel => OutOfFuel
         end
+    | Err x => Err x | Panic => Panic | OutOfFuel => OutOfFuel
+    end.
+
+(* Go: the per-DBI loop of LoadOnce: the first failure aborts the whole transaction *)
+Fixpoint load_dbis (c : icfg) (fmt compat T cutoff : N) (ds : list sdbi) (st : tstate) : res tstate :=
+  match ds with
+  | [] => Ok st
+  | d :: ds' =>
+      match load_one c fmt compat T cutoff d st with
+      | Ok st' => load_dbis c fmt compat T cutoff ds' st'
+      | Err x => Err x | Panic => Panic | OutOfFuel => OutOfFuel
+      end
   end.
 
 (* Go: LoadOnce — the write transaction. Returns the new environment, the transaction id T and
@@ -231,7 +257,8 @@ Fixpoint dump_loop (c : icfg) (ds : dbis) (names : list bytes) : res (list sdbi)
             | None => Err EOther
             | Some s =>
                 match dump_dbi c name (d_flags m) (d_data s) with
-                | Ok sd => match dump_loop c ds names' with
+                | Ok sd => if i_cancelled c then Err ECancelled else
+                           match dump_loop c ds names' with
                            | Ok r => Ok (sd :: r)
                            | Err x => Err x | Panic => Panic | OutOfFuel => OutOfFuel
                            end
